@@ -8,7 +8,19 @@ From BP Require Import Exec.CasesLib Exec.Limbs Exec.Zl Exec.VerifyExec Exec.Pro
 Import ListNotations. Open Scope N_scope.
 """
 PCODE = {1: "coordinates of A", 2: "coordinates of L_j / R_j", 4: "coordinates of A1 / B", 8: "response scalars r1, s1, d1",
-         16: "prover transcript / RNG operations"}
+         16: "prover transcript / RNG operations", 32: "prover guard verdict (the witness relation of Model/Prover.v witness_valid vs prove Ok/Err)"}
+
+
+def guard_term(mspec, prove_ok):
+    """Exec/ProveExec.chk_guard for one member spec: statement openings `commit`, witness openings `witness` (default: the same)."""
+    st = mspec["commit"]
+    wt = mspec.get("witness", st)
+    if not all("v" in c and "r" in c for c in st):
+        return None
+    lims = lambda os: coq_list([coq_list([limbs_of_int(int_of_hex_le(x), 5) for x in o["r"]]) for o in os])
+    vals = lambda os: coq_list([f"{int(o['v'])}%N" for o in os])
+    prom = coq_list([coq_opt(None if p is None else str(int(p)) + "%N") for p in mspec["promises"]])
+    return f"(chk_guard {mspec['bits']}%nat {mspec['cap']}%nat {mspec['T']}%nat {vals(st)} {lims(st)} {prom} {vals(wt)} {lims(wt)} {coq_bool(prove_ok)})"
 
 
 def pexplain(code):
